@@ -172,6 +172,13 @@ def _publish(ck, p):
         gd = [(bi, t) for bi, t in g.calls() if inst_of(t).endswith("document_state::{impl}::generate_diagnostics")]
         ok2 = len(lock) == 1 and len(gd) == 1 and Cfg(g).dominates(lock[0][0], gd[0][0])
         ck.decide(rule, "Backend::publish_diagnostics", ok and ok2, f.span, "publishes the result of generate_diagnostics(url)=%s, which lints doc_state under the lock=%s" % (ok, ok2))
+        # it always sends: no path returns without the notification (a "client already has these" shortcut is
+        # wrong as soon as another handler sends for the same url without going through it - did_close does)
+        if snd:
+            fcfg = Cfg(f)
+            always, wit = fcfg.every_path_passes(0, [snd[0][0]])
+            ck.decide(rule, "Backend::publish_diagnostics:always-sends", always, f.span, "every path through publish_diagnostics reaches client.send_notification(PublishDiagnostics): %s%s" % (
+                always, "" if always else " - blocks %s return without publishing: the client keeps whatever it was last sent (for a re-opened document: the empty list did_close published)" % wit))
 
 
 def _watched_files(p, f, cfg, pv, sends):
